@@ -65,6 +65,23 @@ def main(argv):
             tree = ast.parse(open(path, encoding="utf-8").read())
             modlevel = {t.id for n in tree.body if isinstance(n, ast.Assign) for t in n.targets if isinstance(t, ast.Name)}
             classes = {n.name for n in tree.body if isinstance(n, ast.ClassDef)}
+            # class-level mutable containers that some method mutates through self/cls (shared by all instances)
+            for cnode in [n for n in ast.walk(tree) if isinstance(n, ast.ClassDef)]:
+                shared = {t.id for n in cnode.body if isinstance(n, ast.Assign) for t in n.targets if isinstance(t, ast.Name)
+                          and (isinstance(n.value, (ast.Dict, ast.List, ast.Set)) or (isinstance(n.value, ast.Call) and isinstance(n.value.func, ast.Name)
+                                                                                     and n.value.func.id in ("dict", "list", "set", "deque", "defaultdict")))}
+                for fn in [n for n in cnode.body if isinstance(n, ast.FunctionDef)]:
+                    own = {t.attr for n in ast.walk(fn) if isinstance(n, ast.Assign) for t in n.targets
+                           if isinstance(t, ast.Attribute) and isinstance(t.value, ast.Name) and t.value.id == "self"}
+                    for n in ast.walk(fn):
+                        tgt = None
+                        if isinstance(n, ast.Subscript) and isinstance(n.ctx, (ast.Store, ast.Del)):
+                            tgt = n.value
+                        elif isinstance(n, ast.Call) and isinstance(n.func, ast.Attribute) and n.func.attr in ("append", "add", "update", "insert", "extend", "pop", "clear", "setdefault", "appendleft"):
+                            tgt = n.func.value
+                        if isinstance(tgt, ast.Attribute) and isinstance(tgt.value, ast.Name) and tgt.value.id in ("self", "cls", cnode.name) \
+                                and tgt.attr in shared and not (fn.name == "__init__" and tgt.attr in own):
+                            globals_written.append((rel, "%s.%s(class-level container)" % (cnode.name, tgt.attr), "%s.%s" % (cnode.name, fn.name)))
             for qual, fnode in functions(tree):
                 cases += 1
                 declared_global = {g for n in ast.walk(fnode) if isinstance(n, ast.Global) for g in n.names}
@@ -102,6 +119,8 @@ def main(argv):
     for rel, name, qual in sorted(set(globals_written)):
         key = (rel, name)
         generic = (rel, name.split(".")[0] + ".*")
+        if "(class-level container)" in name:
+            generic = None
         if key not in REVIEWED_STATE and generic not in REVIEWED_STATE:
             failures.append(dict(obligation="frame.inventory#no_unreviewed_global_state", witness=dict(module=rel, name=name, written_in=qual),
                                  observed="module-level / class-level state written inside a function is not in the reviewed inventory"))
